@@ -10,6 +10,7 @@ REG.assumptions += [
     'power with non-integer exponents is uninterpreted with sign, unit, monotonicity and (u^v)^(1/v) = u axioms',
     'material parameters arbitrary positive reals; Poisson ratio in (0, 1/2)',
     'coupling: the coupled model is attached before the first host step (otherwise the histories are shorter by the number of missed steps)',
+    'Zener drag contract: exponents m > 0 and factors K > 0 (global and per phase), volume fractions in [0,1], mean radii >= 0, moments of the distributions >= 0',
 ]
 REG.undecided += [
     'mixed-dislocation prefactors at 90/0 degrees equal the edge/screw formulas only up to the rounding of the tabulated constants (1.3416, 4.1127, 2.1352 vs closed forms)',
